@@ -171,7 +171,7 @@ def code_leg(ctx, rows, name, shard=300):
             ctx.broken.append(("correspondence:code-eval", "coqc on generated cases failed: " + out[-1200:]))
             return total, mism
         total += len(part)
-        for mm in re.finditer(r"\((\d+),\s*\[([^\]]*)\]\)", m.group(1)):
+        for mm in re.finditer(r"\((\d+)(?:%nat)?,\s*\[([^\]]*)\]\)", m.group(1)):
             r = part[int(mm.group(1))]
             mism.append({"prog": r["prog"], "ctx": r["ctx"], "codes": [int(x) for x in re.findall(r"\d+", mm.group(2))],
                          "meaning": "stage*10+component; stage 1 parent-before 2 child 3 parent-after; comp 1 vars 2 extra-names 3 funcs 4 alias 5 opts 6 dir 7 dirstack 8 params; 40 model panic"})
